@@ -220,7 +220,7 @@ func (st *ccState) start() {
 			}
 		}
 		s.EnterSUT()
-		cl, err := cfg.p.NewClient(st.conn, cfg.T, cfg.tries, cfg.bufcap, logf, st.tape.Choose(4))
+		cl, err := cfg.p.NewClient(st.conn, cfg.T, cfg.tries, cfg.bufcap, logf, st.tape.Choose(32))
 		s.LeaveSUT()
 		if err != nil {
 			st.newErr = err
